@@ -8,11 +8,6 @@ Open Scope N_scope.
 
 Definition bytes_of (s : string) : list N := map (fun a => N_of_ascii a) (list_ascii_of_string s).
 
-Lemma gen_accept_src_qr : accept_src_qr = [bytes_of "h.QR()"].
-Proof. reflexivity. Qed.
-Lemma gen_accept_src_opcode :
-  accept_src_opcode = [bytes_of "op := h.Opcode(); op != dns.OpcodeQuery && op != dns.OpcodeNotify"].
-Proof. reflexivity. Qed.
 Lemma gen_reject_src_flags :
   udp_reject_src_flags = [bytes_of "0x80 | (opcode << 3) | (j.rx[2] & 0x01)"]
   /\ tcp_reject_src_flags = udp_reject_src_flags.
@@ -26,3 +21,13 @@ Proof. split; reflexivity. Qed.
 Lemma gen_edns_wire_size :
   edns_wire_size_src = [bytes_of "min(max(int(req.UDPSize()), dns.MinMsgSize), dnsutil.DefaultMsgSize)"].
 Proof. reflexivity. Qed.
+
+(* inventory of the statements that write the options of an existing OPT, per file that has one
+   (Proofs.opt_writer models exactly these; a new writer in one of these files breaks the pin —
+   a writer in a NEW file is not seen: see "srcgen wishes" in NOTES.md) *)
+Lemma gen_opt_writers :
+  opt_writers_ede = [bytes_of "append(opt.Option, ede)"]
+  /\ opt_writers_helpers = [bytes_of "nil"; bytes_of "append(opt.Option, forwarded)"]
+  /\ opt_writers_cache_types = [bytes_of "append(opt.Option, e.ede)"]
+  /\ opt_writers_pool = [bytes_of "append(msg.IsEdns0().Option, ka)"].
+Proof. repeat split; reflexivity. Qed.
